@@ -1,127 +1,413 @@
 package serveruser
 
 import (
-	"fmt"
+	"sync/atomic"
 
+	"github.com/enfein/mieru/v3/pkg/appctl/appctlpb"
 	"github.com/enfein/mieru/v3/pkg/cipher"
-	"github.com/enfein/mieru/v3/pkg/metrics"
 )
 
-// H7.1 tryState: attribution to a user whose credential authenticates the
-// first segment, preferring hinted users, independent of the source cache.
+// C07 - sessions are attributed to the authenticating user despite caches and
+// reloads.
 //
-// Three registered users (dense ids 1..3).  Per user: does the segment's hint
-// name it (arbitrary boolean: hint collisions and shared names included) and
-// does its credential decrypt the segment (arbitrary boolean: shared
-// credentials included).  The source-user cache lookup returns an ARBITRARY
-// array of ids and count - stale, zero, duplicate and out-of-range ids
-// included, a superset of every reachable cache state.
+// The harnesses run the REAL tryState / discoverUser / source cache code.  The
+// cryptography is replaced by its outcome (ideal AEAD): for every registered
+// user u the solver chooses
+//   hint[u]  - does the segment's user hint name u (cipher.CheckUserFromHint)
+//   dec[u]   - does u's credential open the segment (StatelessDecryptor.TryDecrypt)
+// independently, which includes shared credentials (several dec[u] true) and
+// hint collisions (several hint[u] true).  The source-user cache is replaced
+// by an ARBITRARY lookup result (any 16 ids incl. 0, stale, duplicate and
+// out-of-range ones, any count) - a superset of every reachable cache state.
 
-const vUsers = 3
-const vCacheMax = 4
+const vNU = 3 // registered users in the harness
 
-var vHint, vDec [vUsers]bool
-var vDecCalls [vUsers]int
-var vDecryptors [vUsers]*cipher.StatelessDecryptor
-var vCachedIDs [sourceUserCacheUsers]uint32
-var vCachedCount int
-var vUseCache bool
-
-func vStubCheckUserFromHint(user, nonce []byte) bool {
-	// users are named "a", "b", "c"
-	return vHint[int(user[0]-'a')]
+type vBlock struct {
+	user int
+	ctx  cipher.BlockContext
 }
 
-func vStubTryDecrypt(d *cipher.StatelessDecryptor, ciphertext, dst []byte) (cipher.BlockCipher, []byte, error) {
-	for i := 0; i < vUsers; i++ {
-		if d == vDecryptors[i] {
-			vDecCalls[i]++
-			if vDec[i] {
-				return &vBlock{user: i}, make([]byte, metadataLength), nil
-			}
+func (b *vBlock) Encrypt(dst, plaintext []byte) error                  { return nil }
+func (b *vBlock) EncryptWithNonce(dst, nonce, plaintext []byte) error { return nil }
+func (b *vBlock) Decrypt(ciphertext []byte) ([]byte, error)           { return nil, nil }
+func (b *vBlock) DecryptWithNonce(ciphertext, nonce []byte) ([]byte, error) {
+	return nil, nil
+}
+func (b *vBlock) DecryptStatelessTo(ciphertext, dst []byte) ([]byte, error) { return nil, nil }
+func (b *vBlock) NonceSize() int                                            { return 24 }
+func (b *vBlock) Overhead() int                                             { return 16 }
+func (b *vBlock) Clone() cipher.BlockCipher                                 { return b }
+func (b *vBlock) CloneStatelessFast() cipher.BlockCipher                    { return b }
+func (b *vBlock) SetImplicitNonceMode(enable bool)                          {}
+func (b *vBlock) IsStateless() bool                                         { return true }
+func (b *vBlock) BlockContext() cipher.BlockContext                         { return b.ctx }
+func (b *vBlock) SetBlockContext(bc cipher.BlockContext)                    { b.ctx = bc }
+func (b *vBlock) NoncePattern() *appctlpb.NoncePattern                      { return nil }
+func (b *vBlock) SetNoncePattern(pattern *appctlpb.NoncePattern)            {}
+
+type vWorld struct {
+	hint   [vNU]bool
+	dec    [vNU]bool
+	tried  [vNU]int
+	decs   [vNU]*cipher.StatelessDecryptor
+	ids    [sourceUserCacheUsers]uint32
+	count  int
+	lookups int
+}
+
+var vW *vWorld
+
+// redirect target of cipher.CheckUserFromHint
+func vStubHint(name []byte, nonce []byte) bool {
+	r := false
+	for u := 0; u < vNU; u++ {
+		if len(name) == 1 && name[0] == byte('a'+u) {
+			r = vW.hint[u]
 		}
 	}
-	return nil, nil, fmt.Errorf("unable to decrypt")
+	return r
 }
 
-func vStubCacheLookup(c *sourceUserCache, key [16]byte) ([sourceUserCacheUsers]uint32, int) {
-	if !vUseCache {
-		return [sourceUserCacheUsers]uint32{}, 0
+// redirect target of (*cipher.StatelessDecryptor).TryDecrypt
+func vStubTryDecrypt(d *cipher.StatelessDecryptor, ciphertext, dst []byte) (cipher.BlockCipher, []byte, error) {
+	for u := 0; u < vNU; u++ {
+		if d == vW.decs[u] {
+			vW.tried[u]++
+			if vW.dec[u] {
+				return &vBlock{user: u}, append(dst, make([]byte, metadataLength)...), nil
+			}
+			return nil, nil, vErr
+		}
 	}
-	return vCachedIDs, vCachedCount
+	return nil, nil, vErr
 }
 
-func vStubRegisterMetric(groupName, metricName string, metricType metrics.MetricType) metrics.Metric {
-	return &metrics.Counter{}
+type vError struct{}
+
+func (vError) Error() string { return "unable to decrypt" }
+
+var vErr error = vError{}
+
+// redirect target of (*sourceUserCache).lookup: an arbitrary result
+func vStubLookup(c *sourceUserCache, key [16]byte) ([sourceUserCacheUsers]uint32, int) {
+	vW.lookups++
+	return vW.ids, vW.count
 }
 
-// vBlock is a cipher.BlockCipher that only remembers whose credential opened it.
-type vBlock struct {
-	cipher.BlockCipher
-	user int
-}
-
-func vState() *state {
-	st := &state{cache: &sourceUserCache{}}
-	for i := 0; i < vUsers; i++ {
-		vDecryptors[i] = new(cipher.StatelessDecryptor)
-		st.users = append(st.users, user{id: uint32(i + 1), name: string([]byte{byte('a' + i)}), decryptor: vDecryptors[i], policy: Policy{name: string([]byte{byte('a' + i)})}})
+func vNewState(withCache bool) *state {
+	st := &state{}
+	for u := 0; u < vNU; u++ {
+		d := &cipher.StatelessDecryptor{}
+		vW.decs[u] = d
+		st.users = append(st.users, user{id: uint32(u + 1), name: string([]byte{byte('a' + u)}), decryptor: d,
+			policy: Policy{name: string([]byte{byte('a' + u)})}})
+	}
+	if withCache {
+		st.cache = &sourceUserCache{}
 	}
 	return st
 }
 
-func vH_C07_trystate() {
-	for i := 0; i < vUsers; i++ {
-		vHint[i], vDec[i], vDecCalls[i] = vNondetBool("hint"), vNondetBool("dec"), 0
+func vNewWorld(maxCached int) {
+	vW = &vWorld{}
+	for u := 0; u < vNU; u++ {
+		vW.hint[u] = vNondetBool("hint")
+		vW.dec[u] = vNondetBool("dec")
 	}
-	vCachedCount = int(vNondetU8("cache.count"))
-	vAssume(vCachedCount <= vCacheMax)
-	for i := 0; i < vCacheMax; i++ {
-		vCachedIDs[i] = uint32(vNondetU8("cache.id")) // 0 (empty), 1..3, or out of range
+	vW.count = vNondetInt("cached.count")
+	vAssume(vW.count >= 0 && vW.count <= maxCached)
+	for i := 0; i < sourceUserCacheUsers; i++ {
+		if i < maxCached {
+			vW.ids[i] = vNondetU32("cached.id")
+			vAssume(vW.ids[i] <= vNU+2) // 0, valid ids, and ids beyond the registry
+		}
 	}
-	mandatory := vNondetBool("hintMandatory")
-	st := vState()
-	meta := make([]byte, 72)
-	src := Source{valid: true}
-	vUseCache = true
-	r := tryState(st, meta, src, mandatory)
-	accepted := r.block != nil
-	anyDec, anyHintDec, nDec := false, false, 0
-	for i := 0; i < vUsers; i++ {
-		if vDec[i] {
+}
+
+func vCheckOutcome(res discoveryResult, mandatory bool) {
+	anyDec, anyHintDec := false, false
+	for u := 0; u < vNU; u++ {
+		if vW.dec[u] {
 			anyDec = true
-			nDec++
-			if vHint[i] {
+			if vW.hint[u] {
 				anyHintDec = true
 			}
 		}
-		vAssert(vDecCalls[i] <= 1, "each user's credential is tried at most once")
+		vAssert(vW.tried[u] <= 1, "each user's credential is tried at most once")
 	}
-	if accepted {
-		vAssert(r.userID >= 1 && r.userID <= vUsers, "the attributed user is a registered user")
-		u := int(r.userID) - 1
-		vAssert(vDec[u], "the attributed user's credential authenticates the segment")
-		vAssert(r.block.(*vBlock).user == u && r.userContext.UserName == st.users[u].name && r.policy.Name() == st.users[u].name, "cipher, user context and policy are those of the attributed user")
+	if res.block != nil {
+		vAssert(res.userID >= 1 && res.userID <= vNU, "attributed user id is a registered one")
+		u := int(res.userID) - 1
+		vAssert(vW.dec[u], "the attributed user's credential authenticates the segment")
+		vAssert(res.block.(*vBlock).user == u, "the cipher handed on is the attributed user's")
+		vAssert(res.userContext.UserName == string([]byte{byte('a' + u)}), "user context names the attributed user")
+		vAssert(res.policy.name == res.userContext.UserName, "policy snapshot is the attributed user's")
 		if anyHintDec {
-			vAssert(vHint[u], "a user named by the hint is preferred")
+			vAssert(vW.hint[u], "a user named by the hint that authenticates is preferred")
 		}
 		if mandatory {
-			vAssert(vHint[u], "with mandatory hints only a hinted user is accepted")
+			vAssert(vW.hint[u], "hint mandatory => attributed user is named by the hint")
 		}
+		hintOrigin := res.origin == matchCachedHint || res.origin == matchRegistryHint
+		vAssert(hintOrigin == vW.hint[u], "match origin tells whether the hint named the user")
 	} else {
-		if mandatory {
-			vAssert(!anyHintDec, "rejected under mandatory hints => no hinted user authenticates")
-		} else {
-			vAssert(!anyDec, "rejected => no registered credential authenticates the segment")
-		}
+		vAssert(res.userID == 0, "rejected => no user id")
 	}
-	// cache independence when at most one user can authenticate
-	for i := 0; i < vUsers; i++ {
-		vDecCalls[i] = 0
+	if !anyDec {
+		vAssert(res.block == nil, "no registered credential authenticates => rejected")
 	}
-	vUseCache = false
-	r2 := tryState(st, meta, Source{}, mandatory)
-	if nDec <= 1 {
-		vAssert((r2.block != nil) == accepted && r2.userID == r.userID, "with distinct credentials outcome and attributed user do not depend on the source cache")
+	if mandatory && !anyHintDec {
+		vAssert(res.block == nil, "hint mandatory and no hinted user authenticates => rejected")
+	}
+	if anyHintDec || (anyDec && !mandatory) {
+		vAssert(res.block != nil, "an admissible authenticating user exists => accepted")
 	}
 }
+
+func vTryStateHarness(maxCached int) {
+	vNewWorld(maxCached)
+	st := vNewState(true)
+	mandatory := vNondetBool("mandatory")
+	srcValid := vNondetBool("source.valid")
+	meta := vNondetBytes("meta", 24+32+16)
+	var src Source
+	src.valid = srcValid
+	res := tryState(st, meta, src, mandatory)
+	vCheckOutcome(res, mandatory)
+	if !srcValid {
+		vAssert(vW.lookups == 0, "no source address => the cache is not consulted")
+	}
+
+	// cache independence: with distinct credentials (at most one user
+	// authenticates) the outcome equals that of a run with an empty cache
+	ndec := 0
+	for u := 0; u < vNU; u++ {
+		if vW.dec[u] {
+			ndec++
+		}
+		vW.tried[u] = 0
+	}
+	vW.count = 0
+	res2 := tryState(st, meta, src, mandatory)
+	if ndec <= 1 {
+		vAssert((res.block == nil) == (res2.block == nil) && res.userID == res2.userID, "distinct credentials: outcome independent of the source cache")
+	}
+	// in general: the hint class of the attributed user is cache independent
+	if res.block != nil && res2.block != nil {
+		vAssert(vW.hint[res.userID-1] == vW.hint[res2.userID-1], "hint preference independent of the source cache")
+	}
+	vAssert((res.block == nil) == (res2.block == nil), "accept/reject independent of the source cache")
+}
+
+func vH_C07_trystate()      { vTryStateHarness(3) }
+func vH_C07_trystate_full() { vTryStateHarness(sourceUserCacheUsers) }
+
+// H7.3 reload: discoverUser with requireCurrent while another goroutine
+// publishes new generations (the afterAttempt hook of the real function is the
+// environment step).  The result belongs to the generation that is current
+// when discoverUser returns, and was decided on that generation's users.
+func vH_C07_reload() {
+	vNewWorld(2)
+	var pub atomic.Pointer[state]
+	var mand atomic.Bool
+	mand.Store(vNondetBool("mandatory"))
+	g0 := vNewState(true)
+	pub.Store(g0)
+	g1 := &state{cache: &sourceUserCache{}}
+	// generation 1: user "a" was removed, "b" and "c" remain (ids renumbered)
+	for u := 1; u < vNU; u++ {
+		g1.users = append(g1.users, user{id: uint32(u), name: string([]byte{byte('a' + u)}), decryptor: vW.decs[u], policy: Policy{name: string([]byte{byte('a' + u)})}})
+	}
+	publishes := 0
+	step := func(s *state) {
+		if publishes == 0 && vNondetBool("env.publish") {
+			publishes++
+			old := pub.Swap(g1)
+			old.cache.retire()
+		}
+	}
+	meta := vNondetBytes("meta", 24+32+16)
+	var src Source
+	src.valid = vNondetBool("source.valid")
+	requireCurrent := vNondetBool("requireCurrent")
+	res, err := discoverUser(&pub, &mand, meta, src, requireCurrent, step)
+	if err != nil {
+		vAssert(res.block == nil, "error => no cipher")
+		return
+	}
+	vAssert(res.block != nil && res.generation != nil, "success carries cipher and generation")
+	if requireCurrent {
+		vAssert(res.generation == pub.Load(), "requireCurrent: the result belongs to the generation current at return")
+	}
+	// the attributed user is a member of the returned generation and authenticates
+	u := userByID(res.generation, res.userID)
+	vAssert(u != nil, "attributed id is valid in the returned generation")
+	vAssert(u.name == res.userContext.UserName && u.name == res.policy.name, "identity, context and policy agree")
+	vAssert(vW.dec[int(u.name[0]-'a')], "attributed user's credential authenticates")
+	if requireCurrent && publishes == 1 {
+		vAssert(u.name != "a", "after the reload completed, the removed user is not authenticated")
+	}
+	// recording into a retired generation is a no-op
+	a := res.authentication(src)
+	gen := a.generation
+	a.Record()
+	vAssert(a.generation == nil, "Record consumes the pending authentication")
+	if gen == g0 && publishes == 1 {
+		vAssert(g0.cache.loadTable() == nil, "retired generation's cache stays detached")
+	}
+}
+
+// ---- H7.2 source-user cache: one step from an arbitrary bucket ----
+//
+// All keys are mapped to one bucket (redirect of sourceUserCacheBucketIndex to
+// a constant: buckets are alike, and colliding keys - the interesting case -
+// are thereby the rule).  The bucket holds up to four entries with arbitrary
+// distinct keys, arbitrary activity ticks and arbitrary user slots.
+
+func vStubBucketIndex(key [16]byte) uint32 { return 5 }
+
+var vNowTick uint32
+
+func vTick() uint32 { return vNowTick }
+
+func vKey(b byte) [16]byte {
+	var k [16]byte
+	k[0] = b
+	k[15] = 1
+	return k
+}
+
+// vArbitraryCache builds a cache whose single used bucket is arbitrary: nslots
+// user slots per entry are symbolic, the rest empty.
+func vArbitraryCache(nslots int) (*sourceUserCache, *sourceUserCacheTable) {
+	c := newSourceUserCacheWithTick(nil, vTick)
+	tb := c.loadTable()
+	b := &tb.buckets[5]
+	var keys [sourceUserCacheWays]byte
+	var present [sourceUserCacheWays]bool
+	for w := 0; w < sourceUserCacheWays; w++ {
+		present[w] = vNondetBool("way.present")
+		keys[w] = vNondetU8("way.key")
+		vAssume(keys[w] < 6)
+		for v := 0; v < w; v++ {
+			vAssume(!(present[w] && present[v]) || keys[w] != keys[v]) // representation invariant: one way per key
+		}
+		if present[w] {
+			e := &sourceUserCacheEntry{key: vKey(keys[w])}
+			e.lastActive.Store(vNondetU32("way.lastActive"))
+			for i := 0; i < sourceUserCacheUsers; i++ {
+				if i < nslots {
+					e.users[i].Store(vNondetU64("way.user"))
+				}
+			}
+			b.ways[w].Store(e)
+		}
+	}
+	return c, tb
+}
+
+// vRefLive: is uid a live (non-expired) member of key's entry at tick now?
+func vRefLive(tb *sourceUserCacheTable, key [16]byte, now uint32, uid uint32) bool {
+	b := &tb.buckets[5]
+	for w := 0; w < sourceUserCacheWays; w++ {
+		e := b.ways[w].Load()
+		if e == nil || e.key != key {
+			continue
+		}
+		if now-e.lastActive.Load() >= sourceUserCacheLifeSeconds {
+			return false
+		}
+		for i := 0; i < sourceUserCacheUsers; i++ {
+			p := e.users[i].Load()
+			id, seen := uint32(p>>32), uint32(p)
+			if id == uid && id != 0 && now-seen < sourceUserCacheLifeSeconds {
+				return true
+			}
+		}
+		return false
+	}
+	return false
+}
+
+func vContains(ids [sourceUserCacheUsers]uint32, n int, uid uint32) bool {
+	for i := 0; i < sourceUserCacheUsers; i++ {
+		if i < n && ids[i] == uid {
+			return true
+		}
+	}
+	return false
+}
+
+func vCacheLookupHarness(nslots int) {
+	c, tb := vArbitraryCache(nslots)
+	vNowTick = vNondetU32("now")
+	kb := vNondetU8("lookup.key")
+	vAssume(kb < 6)
+	key := vKey(kb)
+	ids, n := c.lookup(key)
+	vAssert(n >= 0 && n <= sourceUserCacheUsers, "lookup count within the result array")
+	probe := vNondetU32("probe.uid")
+	vAssume(probe != 0)
+	// soundness and completeness for an arbitrary probe id
+	vAssert(vContains(ids, n, probe) == vRefLive(tb, key, vNowTick, probe), "lookup returns exactly the live ids recorded for this source (none of another source, none expired)")
+	vAssert(!vContains(ids, n, 0), "the reserved id 0 is never returned")
+	for i := 0; i < sourceUserCacheUsers; i++ {
+		for j := 0; j < i; j++ {
+			vAssert(!(i < n) || ids[i] != ids[j], "no id is returned twice")
+		}
+	}
+}
+
+func vH_C07_cache_lookup()      { vCacheLookupHarness(3) }
+func vH_C07_cache_lookup_full() { vCacheLookupHarness(sourceUserCacheUsers) }
+
+func vCacheRecordHarness(nslots int) {
+	c, tb := vArbitraryCache(nslots)
+	vNowTick = vNondetU32("now")
+	kb := vNondetU8("record.key")
+	ob := vNondetU8("other.key")
+	vAssume(kb < 6 && ob < 6 && ob != kb)
+	key, other := vKey(kb), vKey(ob)
+	uid := vNondetU32("record.uid")
+	probe := vNondetU32("probe.uid")
+	vAssume(probe != 0)
+	otherBefore := vRefLive(tb, other, vNowTick, probe)
+	selfBefore := vRefLive(tb, key, vNowTick, probe)
+	c.recordAuthenticated(key, uid)
+	if uid != 0 {
+		vAssert(vRefLive(tb, key, vNowTick, uid), "a recorded user is live for its source right afterwards")
+		ids, n := c.lookup(key)
+		vAssert(vContains(ids, n, uid), "lookup after record returns the recorded user")
+	} else {
+		vAssert(vRefLive(tb, key, vNowTick, probe) == selfBefore, "the reserved id 0 is ignored")
+	}
+	// recording for one source never ADDS an id to another source
+	vAssert(!vRefLive(tb, other, vNowTick, probe) || otherBefore, "recording for one source never adds a user to another source")
+	// representation invariant preserved: one way per key
+	b := &tb.buckets[5]
+	for w := 0; w < sourceUserCacheWays; w++ {
+		for v := 0; v < w; v++ {
+			ew, ev := b.ways[w].Load(), b.ways[v].Load()
+			vAssert(ew == nil || ev == nil || ew.key != ev.key, "at most one way per source key")
+		}
+	}
+	if probe != uid && selfBefore {
+		// other live users of the same source survive unless all 16 slots were live
+		full := true
+		for w := 0; w < sourceUserCacheWays; w++ {
+			e := b.ways[w].Load()
+			if e != nil && e.key == key {
+				for i := 0; i < sourceUserCacheUsers; i++ {
+					p := e.users[i].Load()
+					if uint32(p>>32) == 0 {
+						full = false
+					}
+				}
+			}
+		}
+		vAssert(full || vRefLive(tb, key, vNowTick, probe), "recording a user does not drop another live user of the source while a free slot exists")
+	}
+}
+
+func vH_C07_cache_record()      { vCacheRecordHarness(2) }
+func vH_C07_cache_record_full() { vCacheRecordHarness(sourceUserCacheUsers) }
